@@ -529,3 +529,101 @@ ml_remove_at = _rec('ml_remove_at', ML, I, ML)
 _def(ml_remove_at, [ml_, i_], z3.If(MLs.is_('lnil', ml_), ml_,
                                     z3.If(i_ == 0, MLs.get('lcons', 'ltl', ml_),
                                           MLs.mk('lcons', MLs.get('lcons', 'lhd', ml_), ml_remove_at(MLs.get('lcons', 'ltl', ml_), i_ - 1)))))
+
+# ---- python list[Pattern | Proved] against the machine's lists ----------------------------------------------------------------------------
+pt_ = z3.Const('pt_', PTerm)
+ptl_ = z3.Const('ptl_', PTL)
+pcl_ = z3.Const('pcl_', PCL)
+
+
+def ex_term(t):
+    return z3.If(PTR.is_('PyPat', t), TRM.mk('Pat', expand(PTR.get('PyPat', 'pypat', t))), TRM.mk('Prf', expand(PTR.get('PyPrf', 'pyprf', t))))
+
+
+ex_stack = _rec('ex_stack', PTL, TL)        # python stack (top = last element) -> machine stack (head = top)
+_def(ex_stack, [ptl_], z3.If(PTLs.is_('ptnil', ptl_), TLs.mk('tnil'),
+                             TLs.mk('tcons', ex_term(PTLs.get('ptcons', 'pthd', ptl_)), ex_stack(PTLs.get('ptcons', 'pttl', ptl_)))))
+ex_mem = _rec('ex_mem', PTL, TL)            # python memory (append at the end) -> machine memory (head = index 0)
+_def(ex_mem, [ptl_], z3.If(PTLs.is_('ptnil', ptl_), TLs.mk('tnil'),
+                           tl_snoc(ex_mem(PTLs.get('ptcons', 'pttl', ptl_)), ex_term(PTLs.get('ptcons', 'pthd', ptl_)))))
+ex_claims = _rec('ex_claims', PCL, ML)
+_def(ex_claims, [pcl_], z3.If(PCLs.is_('pcnil', pcl_), MLs.mk('lnil'),
+                              MLs.mk('lcons', expand(PCLs.get('pccons', 'pchd', pcl_)), ex_claims(PCLs.get('pccons', 'pctl', pcl_)))))
+ptl_len = _rec('ptl_len', PTL, I)
+_def(ptl_len, [ptl_], z3.If(PTLs.is_('ptnil', ptl_), z3.IntVal(0), 1 + ptl_len(PTLs.get('ptcons', 'pttl', ptl_))))
+ptl_wf = _rec('ptl_wf', PTL, B)
+
+def _pterm_pat(t):
+    return z3.If(PTR.is_('PyPat', t), PTR.get('PyPat', 'pypat', t), PTR.get('PyPrf', 'pyprf', t))
+
+
+_def(ptl_wf, [ptl_], z3.If(PTLs.is_('ptnil', ptl_), True,
+                           z3.And(pwf(_pterm_pat(PTLs.get('ptcons', 'pthd', ptl_))), ptl_wf(PTLs.get('ptcons', 'pttl', ptl_)))))
+# membership / first index in the machine-side memory
+tl_has = _rec('tl_has', TL, Term, B)
+_def(tl_has, [tl_, tt_], z3.If(TLs.is_('tnil', tl_), False, z3.Or(TLs.get('tcons', 'thd', tl_) == tt_, tl_has(TLs.get('tcons', 'ttl', tl_), tt_))))
+tl_index = _rec('tl_index', TL, Term, I)
+_def(tl_index, [tl_, tt_], z3.If(TLs.is_('tnil', tl_), z3.IntVal(0),
+                                 z3.If(TLs.get('tcons', 'thd', tl_) == tt_, z3.IntVal(0), 1 + tl_index(TLs.get('tcons', 'ttl', tl_), tt_))))
+
+# ---- slices / views used by the python interpreters --------------------------------------------------------------------------------------
+ptl_lastn = _rec('ptl_lastn', PTL, I, PTL)      # the last n elements of the python list (n >= 0), order preserved
+_def(ptl_lastn, [ptl_, i_], z3.If(z3.Or(i_ <= 0, PTLs.is_('ptnil', ptl_)), PTLs.mk('ptnil'),
+                                 PTLs.mk('ptcons', PTLs.get('ptcons', 'pthd', ptl_), ptl_lastn(PTLs.get('ptcons', 'pttl', ptl_), i_ - 1))))
+ptl_dropn = _rec('ptl_dropn', PTL, I, PTL)      # the list without its last n elements
+_def(ptl_dropn, [ptl_, i_], z3.If(z3.Or(i_ <= 0, PTLs.is_('ptnil', ptl_)), ptl_, ptl_dropn(PTLs.get('ptcons', 'pttl', ptl_), i_ - 1)))
+ptl_bottom = _rec('ptl_bottom', PTL, PTerm, PTL)   # insert an element at index 0 of the python list
+_def(ptl_bottom, [ptl_, pt_], z3.If(PTLs.is_('ptnil', ptl_), PTLs.mk('ptcons', pt_, PTLs.mk('ptnil')),
+                                   PTLs.mk('ptcons', PTLs.get('ptcons', 'pthd', ptl_), ptl_bottom(PTLs.get('ptcons', 'pttl', ptl_), pt_))))
+pm_values = _rec('pm_values', PMap, PTL)        # list(delta.values()) as a python list
+_def(pm_values, [pm], z3.If(PMp.is_('pnil', pm), PTLs.mk('ptnil'),
+                            ptl_bottom(pm_values(PMp.get('pcons', 'ptl', pm)), PTR.mk('PyPat', PMp.get('pcons', 'pval', pm)))))
+pm_keys_rev = _rec('pm_keys_rev', PMap, IdL)    # reversed(delta.keys())
+_def(pm_keys_rev, [pm], z3.If(PMp.is_('pnil', pm), IDL.mk('inil'), il_snoc(pm_keys_rev(PMp.get('pcons', 'ptl', pm)), PMp.get('pcons', 'pkey', pm))))
+pm_len = _rec('pm_len', PMap, I)
+_def(pm_len, [pm], z3.If(PMp.is_('pnil', pm), z3.IntVal(0), 1 + pm_len(PMp.get('pcons', 'ptl', pm))))
+il_allbytes = _rec('il_allbytes', IdL, B)
+_def(il_allbytes, [_l], z3.If(IDL.is_('inil', _l), True, z3.And(IDL.get('icons', 'ihd', _l) >= 0, IDL.get('icons', 'ihd', _l) <= 255,
+                                                            il_allbytes(IDL.get('icons', 'itl', _l)))))
+il_cat = _rec('il_cat', IdL, IdL, IdL)
+_def(il_cat, [_l, il2_], z3.If(IDL.is_('inil', _l), il2_, IDL.mk('icons', IDL.get('icons', 'ihd', _l), il_cat(IDL.get('icons', 'itl', _l), il2_))))
+
+# ---- list plumbing for Instantiate: python slices / dict views against the machine's operand loop ---------------------------------------
+tl2_ = z3.Const('tl2_', TL)
+ml2_ = z3.Const('ml2_', ML)
+tl_cat = _rec('tl_cat', TL, TL, TL)
+_def(tl_cat, [tl_, tl2_], z3.If(TLs.is_('tnil', tl_), tl2_, TLs.mk('tcons', TLs.get('tcons', 'thd', tl_), tl_cat(TLs.get('tcons', 'ttl', tl_), tl2_))))
+ml_cat = _rec('ml_cat', ML, ML, ML)
+_def(ml_cat, [ml_, ml2_], z3.If(MLs.is_('lnil', ml_), ml2_, MLs.mk('lcons', MLs.get('lcons', 'lhd', ml_), ml_cat(MLs.get('lcons', 'ltl', ml_), ml2_))))
+tl_taken = _rec('tl_taken', TL, I, TL)      # the top n entries
+_def(tl_taken, [tl_, i_], z3.If(z3.Or(i_ <= 0, TLs.is_('tnil', tl_)), TLs.mk('tnil'),
+                               TLs.mk('tcons', TLs.get('tcons', 'thd', tl_), tl_taken(TLs.get('tcons', 'ttl', tl_), i_ - 1))))
+tl_dropn = _rec('tl_dropn', TL, I, TL)
+_def(tl_dropn, [tl_, i_], z3.If(z3.Or(i_ <= 0, TLs.is_('tnil', tl_)), tl_, tl_dropn(TLs.get('tcons', 'ttl', tl_), i_ - 1)))
+tl_allpat = _rec('tl_allpat', TL, B)
+_def(tl_allpat, [tl_], z3.If(TLs.is_('tnil', tl_), True, z3.And(TRM.is_('Pat', TLs.get('tcons', 'thd', tl_)), tl_allpat(TLs.get('tcons', 'ttl', tl_)))))
+tl_pats = _rec('tl_pats', TL, ML)           # the patterns of a list of Pat entries, top first
+_def(tl_pats, [tl_], z3.If(TLs.is_('tnil', tl_), MLs.mk('lnil'),
+                           MLs.mk('lcons', TRM.get('Pat', 'pat', TLs.get('tcons', 'thd', tl_)), tl_pats(TLs.get('tcons', 'ttl', tl_)))))
+# reversed association list of a map as (ids, plugs): what the machine reads for `Instantiate n reversed(keys)` with the plugs on the stack
+mkeys_rev = _rec('mkeys_rev', MMap, IdL)
+_def(mkeys_rev, [mm], z3.If(MMp.is_('mnil', mm), IDL.mk('inil'), il_snoc(mkeys_rev(MMp.get('mcons', 'mtl', mm)), MMp.get('mcons', 'mkey', mm))))
+mvals_rev = _rec('mvals_rev', MMap, ML)
+_def(mvals_rev, [mm], z3.If(MMp.is_('mnil', mm), MLs.mk('lnil'), ml_snoc(mvals_rev(MMp.get('mcons', 'mtl', mm)), MMp.get('mcons', 'mval', mm))))
+mlen = _rec('mlen', MMap, I)
+_def(mlen, [mm], z3.If(MMp.is_('mnil', mm), z3.IntVal(0), 1 + mlen(MMp.get('mcons', 'mtl', mm))))
+msnoc = _rec('msnoc', MMap, I, MPat, MMap)
+_def(msnoc, [mm, k, vv], z3.If(MMp.is_('mnil', mm), MMp.mk('mcons', k, vv, MMp.mk('mnil')),
+                               MMp.mk('mcons', MMp.get('mcons', 'mkey', mm), MMp.get('mcons', 'mval', mm), msnoc(MMp.get('mcons', 'mtl', mm), k, vv))))
+mv_hit_m = _rec('mv_hit_m', MPat, MMap, B)
+_def(mv_hit_m, [p, mm], _case(p, [
+    ('Implies', lambda l, r: z3.Or(mv_hit_m(l, mm), mv_hit_m(r, mm))),
+    ('App', lambda l, r: z3.Or(mv_hit_m(l, mm), mv_hit_m(r, mm))),
+    ('Exists', lambda v, s: mv_hit_m(s, mm)),
+    ('Mu', lambda v, s: mv_hit_m(s, mm)),
+    ('MetaVar', lambda n, a, b, c, d, e: mhas(mm, n)),
+    ('ESubst', lambda b, v, pl: z3.Or(mv_hit_m(b, mm), mv_hit_m(pl, mm))),
+    ('SSubst', lambda b, v, pl: z3.Or(mv_hit_m(b, mm), mv_hit_m(pl, mm))),
+], z3.BoolVal(False)))
+mrz = _rec('mrz', MMap, MMap)       # the reversed association list
+_def(mrz, [mm], z3.If(MMp.is_('mnil', mm), MMp.mk('mnil'), msnoc(mrz(MMp.get('mcons', 'mtl', mm)), MMp.get('mcons', 'mkey', mm), MMp.get('mcons', 'mval', mm))))
